@@ -12,14 +12,6 @@ behaviour of `skimage.feature.peak_local_max` (A-EXT).
 namespace C07
 open Model C01
 
-/-- the map has the frame's shape and is shifted with `ifftshift` (repair of D4) -/
-theorem get_correlation_wiring :
-    Gen.getcorr_shift = "correlation.fft.ifftshift" ∧ Gen.getcorr_inverse = "correlation.fft.irfft2" ∧
-    Gen.getcorr_s = "sum_result.shape" ∧ Gen.getcorr_axes = "" ∧
-    Gen.getcorr_template = "match_pattern.get_template(sig_shape=sum_result.shape)" ∧
-    Gen.get_peaks_body = "corr = get_correlation(sum_result, match_pattern) ; peaks = peak_local_max(corr, num_peaks=num_peaks) ; return peaks" := by
-  refine ⟨rfl, rfl, rfl, rfl, rfl, rfl⟩
-
 /-- with that shift a feature on pixel `q` is seen with the mask centre on `q`, for every axis
 length (even or odd) -/
 theorem corr_peak_index (mask : ℤ → ℚ) (n q : ℤ) (hn : 0 < n) (hq : 0 ≤ q ∧ q < n) :
